@@ -94,6 +94,18 @@ def gen_plan(ch: Chooser, tier: str) -> dict[str, Any]:
         for name in names:
             plan['actions'].append({'t': t, 'do': 'patch', 'name': name, 'patch': {'spec': {'bump': ch.int(100, 999)}}})
         plan['actions'].sort(key=lambda a: a['t'])
+    # (e) an object forcibly removed (finalizer stripped, then deleted) inside the gap in which the watch is re-established
+    #     after a 410: no DELETED event will ever come for it
+    if not plan.get('peering') and ch.bool(0.1):
+        name = ch.choice(names)
+        t = round(ch.float(4.0, plan['horizon'] * 0.8), 6)
+        plan['actions'] = [a for a in plan['actions'] if a.get('name') != name or a['t'] < t - 1.0]
+        plan['actions'].append({'t': t, 'do': 'stream-error', 'kind': 'widgets', 'code': 410})
+        gap = ch.choice([0.0005, 0.02, 0.05])
+        plan['actions'].append({'t': round(t + gap, 6), 'do': 'edit', 'edit': 'remove-finalizer', 'name': name,
+                                'value': 'kopf.zalando.org/KopfFinalizerMarker', 'actor': 'admin'})
+        plan['actions'].append({'t': round(t + gap + 0.0001, 6), 'do': 'delete', 'name': name})
+        plan['actions'].sort(key=lambda a: a['t'])
     return plan
 
 
@@ -276,6 +288,27 @@ def oracle(run: runner.Run, oc: Outcome) -> None:
                            f"deleted, but {len(live)} instances run at quiescence; last instance: "
                            f"{(last.t0, last.t1, last.outcome, (last.extra or {}).get('reason_at_exit')) if last else None}",
                            uid=uid, hid=hid)
+    # 6. ... also when the disappearance produced no event at all: an object removed while the watch was being
+    #    re-established (410 -> re-listing) is simply absent from the new listing; its daemons/timers must not run on
+    gone_at: dict[str, float] = {}
+    for tr in run.transitions:
+        if tr.after is None and tr.uid is not None and tr.before is not None:
+            gone_at[tr.uid] = tr.t
+    if op.alive and t_stop is None and not paused_now and not run.step_capped:
+        for (inc, uid, hid), calls in by_inst.items():
+            last = calls[-1]
+            if inc != op.incarnation or last.t1 is not None or uid not in gone_at:
+                continue
+            t_g = gone_at[uid]
+            if t_end - t_g < 20.0:
+                continue
+            noticed = any(s.etype == 'DELETED' for s in steps.get((opid, uid), []))
+            if not noticed and (last.extra or {}).get('flag_at') is None:
+                oc.add('C09/not-stopped', 'object-gone-unnoticed',
+                       f"{hspecs[hid]['kind']} {hid} of {uid} (since t={last.t0:.2f}) still runs at t={t_end:.1f} although its object "
+                       f"has been gone since t={t_g:.3f}: the operator was never handed a DELETED event for it (it vanished "
+                       f"while the watch was re-established) and did not notice its absence from the new listing",
+                       uid=uid, hid=hid)
     oc.probes['probe.stop-trigger-hit-live-instance'] = hit
     if hit:
         oc.nontrivial = True
